@@ -16,7 +16,7 @@ var c05Opts = bridge.GenOpts{
 	MaxVals:     5,
 	Denoms:      3,
 	Holders:     true,
-	Weights:     map[string]int{"burst": 3, "hostile": 10},
+	Weights:     map[string]int{"burst": 3, "hostile": 10, "oprice": 3, "oholders": 3, "byz": 3, "sign": 2, "send2": 3},
 }
 
 func TestC05(t *testing.T) {
